@@ -261,13 +261,17 @@ impl Arbiter {
 impl ArbiterObj { #[verifier::external_body] pub fn spawn(&self, f: AsyncBlock) -> (r: bool) { unimplemented!() } }
 
 impl ServerWorker {
-//@extract file=actix-server/src/worker.rs item="impl ServerWorker / fn start" ret=r props=C02,C08 name=worker::start opaque_move_closures intended_panics sig_replace="Vec<Box<dyn InternalServiceFactory>>=>Vec<BoxedFactory>"
+//@extract file=actix-server/src/worker.rs item="impl ServerWorker / fn start" ret=r props=C02,C08 name=worker::start opaque_move_closures intended_panics trace_calls="factory_rx.recv" sig_replace="Vec<Box<dyn InternalServiceFactory>>=>Vec<BoxedFactory>"
 //@spec
     requires true,
     ensures
         // both handle ends carry the worker's index, and the accept side counts on a counter whose limit is the
         // configured max_concurrent_connections   [C02,C08]
         r matches Ok(p) ==> p.0.idx == idx && p.1.idx == idx && p.0.counter.limit() == config.max_concurrent_connections,
+//@insert before="Ok(pair)"
+        // the handles are handed out only after `start` has WAITED for the worker's report that every service was created
+        // (a failed creation arrives as Err through the same channel and is returned by the `?`)   [C07,C08]
+        assert(r24_trace == seq![0int]);   // [C07,C08]
 //@insert before="let actix_system"
         // the two channel ends given to the accept-side / server-side handles are the peers of the ends the worker
         // keeps, and the handle's counter is the worker's counter   [C01,C02]
